@@ -154,7 +154,7 @@ def shard(job) -> dict:
 
 def run(ctx) -> None:
     L = 3 if ctx.quick else 4
-    jobs = RT.core_jobs(L, parts=4 if ctx.quick else 16)
+    jobs = RT.core_jobs(L, parts=4 if ctx.quick else 16) + RT.scale_jobs()
     expected = RT.expected_cases(jobs)
     from mc import rtrdflib  # noqa: PLC0415
 
